@@ -717,6 +717,12 @@ class DAG(BaseDAG[P, RVDAG]):
 
             input_uxns = [UsageExecNode(to_subdag_id(uxn.id), uxn.key) for uxn in self.input_uxns]
 
+            # a deactivated SubDAG yields None for all its outputs, also for a parameter it hands straight back:
+            #  the defaults of the omitted parameters are forwarded like provided args so that they carry the activation
+            omitted_uxns = self.input_uxns[len(args) :]
+            if is_active and all(uxn.id in self.results for uxn in omitted_uxns):
+                args = (*args, *(self.results[uxn.id] for uxn in omitted_uxns))  # type: ignore[assignment]
+
             # provided args to the subdag
             arg_uxns = construct_subdag_arg_uxns(
                 *args, to_subdag_id=to_subdag_id, qualname=self.qualname
